@@ -93,7 +93,7 @@ pub fn random(args: &Args) {
         let mut steps = 0;
         while now < horizon && steps < 1500 {
             steps += 1;
-            let d = iface.poll_at(Instant::from_millis(now), &sockets).map(|x| (x.total_micros() + 999).div_euclid(1000)).unwrap_or(-1);
+            let d = iface.poll_at(Instant::from_millis(now), &sockets).map(crate::util::ms_ceil).unwrap_or(-1);
             pending.sort_by_key(|x| x.0);
             let next_rx = pending.first().map(|x| x.0).unwrap_or(i64::MAX);
             let mut kind = "due";
@@ -126,7 +126,7 @@ pub fn random(args: &Args) {
                 t.ev(json!({"ev":"panic","now":now,"msg":m}));
                 break;
             }
-            let pa = iface.poll_at(Instant::from_millis(now), &sockets).map(|x| (x.total_micros() + 999).div_euclid(1000)).unwrap_or(-1);
+            let pa = iface.poll_at(Instant::from_millis(now), &sockets).map(crate::util::ms_ceil).unwrap_or(-1);
             let pd = iface.poll_delay(Instant::from_millis(now), &sockets).map(|x| x.total_millis() as i64).unwrap_or(-1);
             let outs: Vec<Value> = out.iter().map(|o| proj(o)).collect();
             t.ev(json!({"ev":"poll","kind":kind,"now":now,"deadline":d,"nrx":nrx,"out":outs,"pa":pa,"pd":pd}));
